@@ -237,6 +237,13 @@ def p8(ctx, rid):
         raise core.AnchorLost('go_right: %d' % n)
 
 
+def p9(ctx, rid):
+    """C05.V12 instances: the shared buffer of the tree walk is resized to the extent to be read on every path before an exact read
+    fills it - a buffer that keeps a shorter previous length makes the all-versions walk see only part of a leaf"""
+    import props.c05 as c05
+    c05.v12(ctx, rid)
+
+
 RULES = [
     Rule('C09.P1', 'keys are ordered through the key type, never as raw byte strings, in the index code (C04.T10 instances)', p1, 4),
     Rule('C09.P2', 'cursors over the on-disk leaf region move by whole record headers (C04.T12 instances)', p2, 4),
@@ -245,5 +252,6 @@ RULES = [
     Rule('C09.P6', 'the on-disk index walks return every version of a key: no deletion-marker test in the b+tree code', p6, 1),
     Rule('C09.P7', 'the writing pass and the parent-building pass of the tree serializer share one (min, max) amount computation', p7, 1),
     Rule('C09.P8', 'the in-buffer walk always hands over to the file walk unless it saw the next key', p8, 1),
+    Rule('C09.P9', 'the reused buffer of the on-disk walks is resized before every exact read (C05.V12 instances)', p9, 3),
     Rule('C09.P5', 'the on-disk latest-version lookup takes the leftmost header of the key', p5, 1),
 ]
